@@ -578,6 +578,9 @@ SIGNER_OPTION_FORMS = ['', 'cert-authority', 'valid-after=19700101001640Z', 'val
                        'Valid-Before=junk', 'nameſpaces=file']
 
 
+HIDDEN_SEPS = ['\x0b', '\x0c', '\x1c', '\x1d', '\x1e', '\x85', '\u2028', '\u2029', '\r']
+
+
 def gen_signers_text(rng: Any, keys_: List[Any]) -> str:
     lines = []
     for _ in range(rng.randint(1, 4)):
@@ -595,6 +598,11 @@ def gen_signers_text(rng: Any, keys_: List[Any]) -> str:
         line = princ + sep + (opts + sep if opts else '') + keytxt
         if rng.random() < 0.1:
             line = '  ' + line + '  '
+        if rng.random() < 0.12 and keytxt == pub_line(k):
+            # a comment holding a character `str.splitlines()` breaks at, followed by what would be an entry of its
+            # own if the line ended there (OpenSSH ends a line at a newline only)
+            k2 = rng.choice(keys_)
+            line += ' c' + rng.choice(HIDDEN_SEPS) + rng.choice(PRINCIPALS + ['*']) + ' ' + pub_line(k2)
         lines.append(line)
     return rng.choice(['\n', '\n', '\r\n', '\n\n']).join(lines) + rng.choice(['', '\n'])
 
@@ -1310,6 +1318,7 @@ def oracle(ctx: Ctx) -> OracleResult:
     # (3) SSHSIG ------------------------------------------------------------------------------------------------------
     fails += _oracle_sshsig(ctx, rng, hist, res, algs, thorough, deep)
     fails += _c16_audit.oracle_audit(_self(), ctx, ctx.subrng('oracle-audit'), hist, res, algs, deep)
+    fails += _oracle_hidden_entry(ctx, rng, hist, res, algs)
     if deep:
         fails += _oracle_ssh_keygen(ctx, rng, hist, res, algs)
 
@@ -1462,6 +1471,58 @@ def _oracle_sshsig(ctx: Ctx, rng: Any, hist: Hist, res: OracleResult, algs: List
                    'sshsig-accepts-ca-without-cert-authority', f'CA listed without cert-authority ({label})', rp)
             expect(v(msg, sig, principal, f'* cert-authority {pub_line(key(alg, 1))}\n', now=1500), False,
                    'sshsig-accepts-unlisted-ca', f'another CA listed ({label})', rp)
+    return fails
+
+
+def _oracle_hidden_entry(ctx: Ctx, rng: Any, hist: Hist, res: OracleResult, algs: List[str]) -> List[Failure]:
+    """One line is one entry (every run, ssh-keygen as the judge of how the file reads)."""
+    fails: List[Failure] = []
+    import shutil
+    if not shutil.which('ssh-keygen'):
+        hist.hit('ssh-keygen:absent')
+        return fails
+    tmp = ctx.tmpdir()
+
+    def run(args: List[str], stdin: bytes = b'') -> Tuple[int, str]:
+        p = subprocess.run(['ssh-keygen'] + args, input=stdin, stdout=subprocess.PIPE, stderr=subprocess.STDOUT,
+                           timeout=30)
+        return p.returncode, p.stdout.decode(errors='replace')
+
+    for alg in algs:
+        if alg in ('ecdsa-sha2-1.3.132.0.10', 'ssh-ed448', 'ssh-dss'):
+            continue                     # not supported by OpenSSH 9.2's sshsig / key parser
+        k = key(alg)
+        msg = b'interop ' + bytes(rng.randrange(32, 127) for _ in range(12))
+        # one line is one entry: a second "principal key" text in the COMMENT of a line, behind a character that
+        # str.splitlines() breaks at, authorises nobody (ssh-keygen is the judge of how the file reads)
+        k2 = key(alg, 1)
+        msg2 = b'hidden ' + msg
+        arm2 = asyncssh.create_sshsig(k2, msg2, namespace='file')
+        sig2 = os.path.join(tmp, f'sig2-{alg}')
+        with open(sig2, 'wb') as f:
+            f.write(arm2)
+        for sep in HIDDEN_SEPS:
+            text = f'alice namespaces="file" {pub_line(k)} build{sep}mallory {pub_line(k2)}\n'
+            hidden = os.path.join(tmp, f'hidden-{alg}')
+            with open(hidden, 'wb') as f:
+                f.write(text.encode())
+            rc, out = run(['-Y', 'verify', '-f', hidden, '-I', 'mallory', '-n', 'file', '-s', sig2], msg2)
+            if rc == 0:
+                hist.hit('hidden-entry:ssh-keygen-accepts')
+                continue
+            res.evaluations += 1
+            with clock(1500):
+                try:
+                    mine: Any = asyncssh.validate_sshsig(msg2, arm2, 'mallory', text.encode())
+                except Exception as e:
+                    mine = classify(e)
+            hist.hit(f'hidden-entry:{mine}')
+            if mine is True:
+                fails.append(Failure('sshsig-signer-hidden-in-comment-accepted',
+                                     f'allowed-signers line for alice with the comment "build" + {sep!r} + "mallory <key>": '
+                                     f'a signature by that key validates as mallory (ssh-keygen -Y verify: rc={rc}, '
+                                     f'one line, no entry for mallory) ({alg})',
+                                     {'kind': 'interop', 'alg': alg, 'sep': sep}))
     return fails
 
 
